@@ -286,7 +286,13 @@ def oracle(case, res, hist):
     ended = wr is not None and (wr[1] == ("val", True) or wr[1][0] in ("ok", "exc"))
     if case["want_end"] and wr is not None and wr[1] == ("val", False):
         was_dropped = any(o[0] == "drop" for o in ops)
-        if was_dropped and not (case["ending"] == "kill" and res.fault_log):
+        # the connection counts as lost only if the kill fired well before the wait gave up (a kill scheduled by
+        # step count can land after the simulated clock has already jumped over the whole 600 s wait; the worker's
+        # body has then ended normally at 500 s, which is the listed dropped-receiver case, not a lost connection)
+        t_gaveup = res.ctx.seq_time.get(wr[0], 0.0)
+        killed_in_time = (case["ending"] == "kill" and bool(res.fault_log)
+                          and res.fault_log[0][1] + 50.0 <= t_gaveup)
+        if was_dropped and not killed_in_time:
             # receiver dropped its channel object (callback stays registered), then the peer ended normally
             V.append(v("endmarker-never-delivered", "dropped-receiver;peer-ended-normally",
                        "callback channel object dropped, then the remote side finished: no endmarker within 600 s"))
